@@ -73,8 +73,8 @@ Definition PS (n:nat) : Prop :=
   (forall a s, Forall P0 a -> Forall tokwf s -> pw (Forall P0) s (factors_loop n a s)).
 
 Lemma P0_const c : P0 (Const c). Proof. split; [exact I|intros v []]. Qed.
-Lemma P0_un u e : u <> UFact -> P0 e -> P0 (Un u e).
-Proof. intros NE (A & B). split; [destruct u; cbn [sk0]; auto; contradiction|exact B]. Qed.
+Lemma P0_un u e : u <> UFact -> u <> UAbs -> P0 e -> P0 (Un u e).
+Proof. intros NE NA (A & B). split; [destruct u; cbn [sk0]; auto; contradiction|exact B]. Qed.
 Lemma P0_fact c : P0 (Un UFact (Const c)). Proof. split; [cbn [sk0]; eauto|intros v []]. Qed.
 Lemma P0_var s : Forall tokwf s -> is s TVar = true -> P0 (Var (varname s)).
 Proof.
@@ -115,13 +115,13 @@ Proof.
   - cbn [parse_unary]. repeat ps_step.
   - cbn [parse_prefix]. repeat ps_step; cbn [pw]; (split; [|apply suffix_refl]);
       try apply P0_fact; try apply P0_const; try (apply P0_bin; [discriminate|apply P0_const|assumption]);
-      try (apply P0_un; [discriminate|assumption]); try assumption; try (destruct b; [apply P0_un; [discriminate|assumption]|assumption]).
+      try (apply P0_un; [discriminate|discriminate|assumption]); try assumption; try (destruct b; [apply P0_un; [discriminate|discriminate|assumption]|assumption]).
   - cbn [parse_factors]. eapply pw_bind; [apply IHfl; [constructor|assumption]|]. intros fs s' HF Hs. wf_chain.
     repeat ps_step; cbn [pw]; (split; [|apply suffix_refl]).
     + eapply P0_prod; [|eassumption]. apply P0_with_pow; assumption.
     + eapply P0_prod; eassumption.
   - cbn [factors_loop]. eapply (pw_bind P0).
-    + repeat ps_step; cbn [pw]; (split; [|apply suffix_refl]); try assumption; try (apply P0_var; assumption); try (apply P0_un; [discriminate|assumption]).
+    + repeat ps_step; cbn [pw]; (split; [|apply suffix_refl]); try assumption; try (apply P0_var; assumption); try (apply P0_un; [discriminate|discriminate|assumption]).
     + intros f s' Hf Hs. wf_chain. repeat ps_step.
       * apply IHfl; [apply Forall_app; split; [assumption|constructor; [assumption|constructor]]|assumption].
       * cbn [pw]. split; [apply Forall_app; split; [assumption|constructor; [assumption|constructor]]|apply suffix_refl].
